@@ -155,6 +155,7 @@ Failed(r) ==
       [] r.op = "scramble"    -> FScramble(r)
       [] r.op = "same_as"     -> FSameAs(r)
       [] r.op = "unchanged"   -> FUnchanged(r)
+      [] r.op = "argkept"     -> F(r.in.law, r.out.arg = r.in.arg)
       [] OTHER                -> {"UnknownOp"}
 
 Init == i = 0
